@@ -999,11 +999,83 @@ def _instantiate(helper, kind, call, caller_idents, tag, target=None,
     sub = _Subst(exprs, renames)
     body = [_FoldGetattr().visit(sub.visit(st)) for st in body]
     body = [_TypeSelfAttr().visit(st) for st in body]
+    if any(isinstance(v, ast.Constant) for v in exprs.values()):
+        body = _fold_constant_tests(body)
     pre = [ast.copy_location(
         ast.Assign(targets=[ast.Name(id=n, ctx=ast.Store())],
                    value=copy.deepcopy(v), lineno=call.lineno), call)
         for n, v in assigns]
     return pre, body
+
+
+class _FoldConstTests(ast.NodeTransformer):
+    """What a constant argument decides inside the helper written out:
+    `a if True else b`, `None or x`, `if False: ...`."""
+    def visit_IfExp(self, node):
+        self.generic_visit(node)
+        if isinstance(node.test, ast.Constant):
+            return node.body if node.test.value else node.orelse
+        return node
+
+    def visit_BoolOp(self, node):
+        self.generic_visit(node)
+        vals = list(node.values)
+        while len(vals) > 1 and isinstance(vals[0], ast.Constant):
+            truthy = bool(vals[0].value)
+            if isinstance(node.op, ast.Or) == truthy:
+                return vals[0]          # decides the whole expression
+            vals = vals[1:]
+        if len(vals) == 1:
+            return vals[0]
+        node.values = vals
+        return node
+
+    def visit_UnaryOp(self, node):
+        self.generic_visit(node)
+        if isinstance(node.op, ast.Not) and \
+                isinstance(node.operand, ast.Constant):
+            return ast.copy_location(
+                ast.Constant(value=not node.operand.value), node)
+        return node
+
+    def visit_Compare(self, node):
+        self.generic_visit(node)
+        if len(node.ops) == 1 and isinstance(node.left, ast.Constant) and \
+                isinstance(node.comparators[0], ast.Constant) and \
+                isinstance(node.ops[0], (ast.Is, ast.IsNot)) and \
+                (node.left.value is None or
+                 node.comparators[0].value is None):
+            same = node.left.value is node.comparators[0].value
+            return ast.copy_location(ast.Constant(
+                value=same if isinstance(node.ops[0], ast.Is) else not same),
+                node)
+        return node
+
+
+def _fold_constant_tests(body):
+    out = []
+    for st in body:
+        st = _FoldConstTests().visit(st)
+        out.append(st)
+
+    def block(stmts):
+        res = []
+        for st in stmts:
+            for name in _BLOCKS:
+                lst = getattr(st, name, None)
+                if isinstance(lst, list) and lst and \
+                        isinstance(lst[0], ast.stmt):
+                    new = block(lst)
+                    setattr(st, name, new or ([_pass(st)] if name == 'body'
+                                              else []))
+            for h in getattr(st, 'handlers', []) or []:
+                h.body = block(h.body) or [_pass(st)]
+            if isinstance(st, ast.If) and isinstance(st.test, ast.Constant):
+                res.extend(st.body if st.test.value else st.orelse)
+            else:
+                res.append(st)
+        return res
+    return block(out)
 
 
 def _first_evaluated(e, target):
